@@ -16,6 +16,7 @@ from exabgp.bgp.message.update.nlri.qualifier import ESI, EthernetTag, Labels, R
 from exabgp.bgp.message.update.nlri.qualifier import MAC as MACQUAL
 from exabgp.bgp.message.update.nlri.qualifier.path import PathInfo
 from exabgp.protocol.ip import IP
+from exabgp.protocol.family import Family
 from exabgp.util.types import Buffer
 
 # EVPN MAC address and IP address length constants (in bits)
@@ -146,11 +147,18 @@ class MAC(EVPN):
         return Labels.unpack_labels(self._packed[label_start : label_start + 3])
 
     def index(self) -> bytes:
-        # Note: Per RFC 7432 Section 7.2, the route key for Type 2 should only include
-        # etag, mac, and ip (ESI and labels are attributes, not key). However, this
-        # implementation uses full packed bytes for index. The __eq__ method correctly
-        # excludes ESI and label for semantic equality comparisons.
-        return EVPN.index(self)
+        # RFC 7432 section 7.2: the route key of a MAC/IP advertisement is RD, Ethernet tag, MAC and IP; the
+        # ESI and the labels are not part of it. Same fields as __eq__ and __hash__, so that two routes which
+        # compare equal are one entry of the RIB and not two.
+        iplen_bytes = self._packed[31] // 8
+        return (
+            bytes(Family.index(self))
+            + bytes([self.CODE])
+            + bytes(self._packed[2:10])
+            + bytes(self._packed[20:24])
+            + bytes(self._packed[25:31])
+            + bytes(self._packed[32 : 32 + iplen_bytes])
+        )
 
     def __eq__(self, other: object) -> bool:
         return (
